@@ -238,7 +238,13 @@ func runHubCase(seed uint64, nOps int, hostile bool, gov bool, restart bool, sta
 			stats[fmt.Sprintf("op%d_code3", op.Kind)]++
 			return 3
 		}
-		outs = append(outs, L(I(code), observeHub(env, allChains)))
+		if blocksMode && (op.Kind == 1 || op.Kind == 2 || op.Kind == 3 || op.Kind == 4 || op.Kind == 11) {
+			// inside a block nothing reads the stores between two transactions: observing here would sort the dirty
+			// entries of the block's cache store, which the Begin/EndBlocker of a real node find unsorted
+			outs = append(outs, L(I(code), L()))
+		} else {
+			outs = append(outs, L(I(code), observeHub(env, allChains)))
+		}
 		if detMode {
 			lastCaseHashes = append(lastCaseHashes, env.StateHash())
 			shadow.env.Wire()
@@ -300,10 +306,11 @@ func runHubCase(seed uint64, nOps int, hostile bool, gov bool, restart bool, sta
 	funding := 2 + rng.Intn(4)
 	burstsLeft := 3
 	foreignLeft := 1
+	catchupLeft := 1
 	quietLeft := 1
 	manyDone := false
 	lastCaseHashes = nil
-	for len(ops) < nOps {
+	for len(ops) < nOps || (blocksMode && !deadlocked && (foreignLeft > 0 || catchupLeft > 0 || burstsLeft > 1) && len(ops) < nOps+1500) {
 		if detMode && rng.Chance(1, 10) {
 			if rng.Chance(1, 2) {
 				// a transaction that rewrites the token list (as a governance proposal handler does) and then fails
@@ -322,6 +329,56 @@ func runHubCase(seed uint64, nOps int, hostile bool, gov bool, restart bool, sta
 		}
 		if deadlocked {
 			break
+		}
+		if blocksMode && inBlock && funding == 0 && catchupLeft > 0 && rng.Chance(1, 2) {
+			// a catch-up block: a transfer is sent and batched, and an oracle that was down reports a long run of events at
+			// once -- first the execution of that (or an older waiting) batch, then 66-90 deposits
+			catchupLeft--
+			var t *types.TokenInfo
+			u := 0
+			for _, c := range tokens {
+				for i := 0; i < 3; i++ {
+					if (c.ChainId == "ethereum" || c.ChainId == "bsc") && env.Bank.GetBalance(env.Ctx, userAddr(i), c.Denom).Amount.BigInt().Cmp(pow10(9)) > 0 {
+						t, u = c, i
+					}
+				}
+			}
+			if t != nil {
+				ch := t.ChainId
+				txCounter++
+				do(&HubOp{Kind: 1, Sender: userAddr(u).String(), Chain: ch, Recipient: ethAddrOf(0xe0, rng.Intn(3)), Denom: t.Denom,
+					Amount: big.NewInt(int64(100000 + rng.Intn(1000))), Fee: big.NewInt(int64(1 + rng.Intn(5))), TxBytes: []byte(fmt.Sprintf("tx%d", txCounter))})
+				do(&HubOp{Kind: 3, Sender: userAddr(u).String(), Chain: ch, Denom: t.Denom})
+				// the batch just requested, looked up by key (no iteration: its key must stay among the unsorted dirty entries)
+				var b *types.BatchTx
+				bn := rawU64(env, append([]byte{types.LastOutgoingBatchNonceKey}, types.ChainID(ch).Bytes()...))
+				if otx := env.K.GetOutgoingTx(env.Ctx, types.ChainID(ch), types.MakeBatchTxKey(types.ChainID(ch), t.ExternalTokenId, bn)); otx != nil {
+					if x, ok := otx.(*types.BatchTx); ok && x.BatchNonce > lastExec[ch+"|"+x.ExternalTokenId] && (x.Timeout == 0 || x.Timeout > extHeight[ch]+1) {
+						b = x
+					}
+				}
+				if b != nil {
+					n, h := nextEvent(ch)
+					if b.Timeout > 0 && h > b.Timeout-1 {
+						h = b.Timeout - 1
+						extHeight[ch] = h
+					}
+					lastExec[ch+"|"+b.ExternalTokenId] = b.BatchNonce
+					do(&HubOp{Kind: 4, Chain: ch, Ev: &HubEvent{Kind: 3, Nonce: n, Coin: b.ExternalTokenId, BatchNonce: b.BatchNonce, Height: h,
+						TxHash: fmt.Sprintf("0xexe%s%d", ch, n), FeePaid: big.NewInt(int64(rng.Intn(1000))), FeePayer: ethAddrOf(0x90, rng.Intn(2))}})
+					nd := 66 + rng.Intn(25)
+					for i := 0; i < nd && !deadlocked; i++ {
+						n, _ := nextEvent(ch)
+						amt := new(big.Int).Mul(big.NewInt(int64(1+rng.Intn(9))), pow10(int(t.ExternalDecimals)))
+						do(&HubOp{Kind: 4, Chain: ch, Ev: &HubEvent{Kind: 1, Nonce: n, Coin: t.ExternalTokenId, Amount: amt, Sender: ethAddrOf(0xe0, 0),
+							Receiver: userAddr(rng.Intn(3)).String(), Height: extHeight[ch], TxHash: fmt.Sprintf("0xcat%s%d", ch, n)}})
+					}
+					do(&HubOp{Kind: 6})
+					inBlock = false
+					stats["catch_up_blocks"]++
+				}
+			}
+			continue
 		}
 		if blocksMode && inBlock && funding == 0 && foreignLeft > 0 && rng.Chance(1, 3) {
 			foreignLeft--
@@ -372,7 +429,7 @@ func runHubCase(seed uint64, nOps int, hostile bool, gov bool, restart bool, sta
 			}
 			continue
 		}
-		if blocksMode && inBlock && funding == 0 && burstsLeft > 0 && rng.Chance(1, 6) {
+		if blocksMode && inBlock && funding == 0 && burstsLeft > 0 && rng.Chance(1, 3) {
 			burstsLeft--
 			// a burst: many small transfers of one token to one chain, all written in this block
 			ch := []string{"ethereum", "bsc", "minter"}[rng.Intn(3)]
